@@ -9,6 +9,7 @@ import (
 	"reflect"
 	"strings"
 	"sync"
+	"sync/atomic"
 	"testing"
 
 	"vfkit"
@@ -41,6 +42,7 @@ type vfC01Witness struct {
 	Seed   int64    `json:"seed"`
 	Path   []string `json:"path,omitempty"`
 	Ext    []int    `json:"ext,omitempty"`
+	First  string   `json:"first,omitempty"` // crosskind: which stanza kind is decoded first (iq | ext)
 	XML    string   `json:"xml,omitempty"`
 	XML2   string   `json:"xml2,omitempty"`
 	Detail string   `json:"detail,omitempty"`
@@ -272,9 +274,18 @@ func TestVf_C01(t *testing.T) {
 		"byte fix-point, NextPacket in a stream gives the same value, and the element skeleton is identical to the one obtained with placeholders instead of the text. "+
 		"non-trivial = distinct serialization that contained hostile text and round-tripped")
 	defer run.Close()
+	defer func() {
+		run.Count("nodes_named_like_another_kinds_extension", atomic.LoadInt64(&vfForeignKindUsed))
+		run.Count("other_kind_extension_names", int64(len(vfForeignKindNames())))
+	}()
 
 	var rw vfC01Witness
 	if run.ReplayCase(&rw) {
+		if rw.Mode == "crosskind" {
+			run.Case(rw)
+			vfC01CrossKind(run, rw)
+			return
+		}
 		for _, top := range vfTops {
 			if top.name == rw.Top {
 				run.Case(rw)
@@ -282,6 +293,20 @@ func TestVf_C01(t *testing.T) {
 			}
 		}
 		return
+	}
+
+	// (0) cross-kind sequences, before anything else has been decoded in this process: an element name under which
+	// an extension is registered for one stanza kind, first seen as a generic node inside an IQ and then as the
+	// extension itself - and the other way round, after a registration (which any application may do at any time)
+	for _, tn := range []string{"Message", "Presence"} {
+		alts := vfAlternatives(vfExtIf(tn), tn, "Extensions")
+		for i := range alts {
+			for _, first := range []string{"iq", "ext"} {
+				w := vfC01Witness{Top: tn, Mode: "crosskind", Seed: vfkit.Seed()*15485863 + int64(i), Ext: []int{i}, First: first}
+				run.Case(w)
+				vfC01CrossKind(run, w)
+			}
+		}
 	}
 
 	// (1) single-path probes
@@ -356,6 +381,67 @@ func TestVf_C01(t *testing.T) {
 	if run.NViolations() > 0 {
 		t.Fail()
 	}
+}
+
+var vfLateRegistrations int64
+
+// vfC01CrossKind: one registered message/presence extension and an IQ whose generic child carries the same element
+// name, decoded one after the other in the order w.First says, right after a fresh registration.
+func vfC01CrossKind(run *vfkit.Run, w vfC01Witness) {
+	top := vfTops[0]
+	if w.Top == "Presence" {
+		top = vfTops[1]
+	}
+	n := atomic.AddInt64(&vfLateRegistrations, 1)
+	TypeRegistry.MapExtension(PKTMessage, xml.Name{Space: "urn:vf:late", Local: fmt.Sprintf("late%d", n)}, vfExtExact{})
+	extW := vfC01Witness{Top: w.Top, Mode: "ext", Seed: w.Seed, Ext: w.Ext}
+	// the element names the extension is serialized under
+	g := newVfGen(extW.Seed, false)
+	pv := reflect.New(top.typ)
+	pv.Elem().Set(vfC01Builder(top, extW)(g))
+	b, err := vfMarshalSafe(pv.Interface())
+	if err != nil {
+		return // reported by the ordinary extension phase
+	}
+	var names []xml.Name
+	d := xml.NewDecoder(bytes.NewReader(b))
+	depth := 0
+	for {
+		tok, err := d.Token()
+		if err != nil {
+			break
+		}
+		switch tt := tok.(type) {
+		case xml.StartElement:
+			depth++
+			if depth == 2 {
+				names = append(names, tt.Name)
+			}
+		case xml.EndElement:
+			depth--
+		}
+	}
+	extStep := func() { vfC01Check(run, top, extW, vfC01Builder(top, extW)) }
+	iqStep := func() {
+		for k, name := range names {
+			if TypeRegistry.GetExtensionType(PKTIQ, name) != nil {
+				continue // registered for IQs as well: not a generic node there
+			}
+			iq := IQ{Attrs: Attrs{Id: fmt.Sprintf("ck-%d-%d", w.Seed, k), Type: IQTypeGet}, Any: &Node{XMLName: name, Content: "vf"}}
+			iw := w
+			iw.Detail = "iq step: generic child " + name.Space + " " + name.Local
+			vfC01Check(run, vfTops[2], iw, func(*vfGen) reflect.Value { return reflect.ValueOf(iq) })
+			run.Count("crosskind_iq_steps", 1)
+		}
+	}
+	if w.First == "iq" {
+		iqStep()
+		extStep()
+	} else {
+		extStep()
+		iqStep()
+	}
+	run.Count("crosskind_sequences", 1)
 }
 
 func vfC01Builder(top vfTop, w vfC01Witness) func(g *vfGen) reflect.Value {
